@@ -52,7 +52,7 @@ func init() {
 		ID: "BEST-1",
 		Doc: "paired best-so-far: in the median run the crossing count and the saved positions returned are selected together (same phi structure), a new pair is taken only on the true edge of new < best, and the snapshot is cloned with no reordering call between counting and cloning; " +
 			"the caller selects count and positions from the same run, the run with the smaller count; the value logged under \"crossings\" and the map restored into Node.LayerPos are that pair",
-		Floor: 4,
+		Floor: 5,
 		Ctl:   []string{"internal__phase3__best1.go.txt"},
 		Run:   runBest1,
 	})
@@ -396,14 +396,8 @@ func runPair2(m *Model, r *RuleResult) {
 
 func runPair3(m *Model, r *RuleResult) {
 	p := m.Pkg("autog")
-	var fd *ast.FuncDecl
-	for fn, d := range m.Decl {
-		if fn.Pkg() == p.Types && fn.Name() == "Layout" && d.Recv == nil {
-			fd = d
-		}
-	}
-	if fd == nil {
-		r.undecided("anchor:Layout", "-", "autog.Layout", "not found")
+	if p == nil {
+		r.undecided("anchor:autog", "-", "package autog", "not found")
 		return
 	}
 	info := p.TypesInfo
@@ -425,95 +419,106 @@ func runPair3(m *Model, r *RuleResult) {
 		}
 	}
 	nNode, nEdge := 0, 0
-	ast.Inspect(fd.Body, func(n ast.Node) bool {
-		cl, ok := n.(*ast.CompositeLit)
-		if !ok {
-			return true
+	for _, file := range p.Syntax {
+		if m.IsPosctl(file.Pos()) {
+			continue
 		}
-		t := info.TypeOf(cl)
-		if t == nil {
-			return true
-		}
-		switch namedKey(t) {
-		case pubNode:
-			nNode++
-			got := map[string]string{}
-			var root types.Object
-			okRoot := true
-			for _, el := range cl.Elts {
-				kv, ok := el.(*ast.KeyValueExpr)
+		for _, d := range file.Decls {
+			fd, ok := d.(*ast.FuncDecl)
+			if !ok || fd.Body == nil {
+				continue
+			}
+			ast.Inspect(fd.Body, func(n ast.Node) bool {
+				cl, ok := n.(*ast.CompositeLit)
 				if !ok {
-					got["<positional>"] = types.ExprString(el)
-					continue
+					return true
 				}
-				k := kv.Key.(*ast.Ident).Name
-				ro, path := selPath(kv.Value)
-				got[k] = path
-				if root == nil {
-					root = ro
-				} else if root != ro {
-					okRoot = false
+				t := info.TypeOf(cl)
+				if t == nil {
+					return true
 				}
-			}
-			pos := m.Pos(cl.Pos())
-			isNode := root != nil && namedKey(root.Type()) == igNode
-			if got["ID"] == "ID" && got["Size"] == "Size" && len(got) == 2 && okRoot && isNode {
-				r.holds("out-node:ID", pos, "output node ID is the visited node's ID")
-				r.holds("out-node:Size", pos, "output node Size (X, Y, W, H) is the visited node's Size")
-			} else {
-				r.violation("out-node:fields", pos, "output node must be {ID: n.ID, Size: n.Size} of one node", fmt.Sprintf("got %v (single source node: %v)", got, okRoot && isNode))
-			}
-			// the range variable
-			if root != nil {
-				checkSkipCondition(m, r, info, fd, cl, root)
-			}
-		case pubEdge:
-			nEdge++
-			got := map[string]string{}
-			var root types.Object
-			okRoot := true
-			for _, el := range cl.Elts {
-				kv, ok := el.(*ast.KeyValueExpr)
-				if !ok {
-					got["<positional>"] = types.ExprString(el)
-					continue
+				switch namedKey(t) {
+				case pubNode:
+					nNode++
+					got := map[string]string{}
+					var root types.Object
+					okRoot := true
+					for _, el := range cl.Elts {
+						kv, ok := el.(*ast.KeyValueExpr)
+						if !ok {
+							got["<positional>"] = types.ExprString(el)
+							continue
+						}
+						k := kv.Key.(*ast.Ident).Name
+						ro, path := selPath(kv.Value)
+						got[k] = path
+						if root == nil {
+							root = ro
+						} else if root != ro {
+							okRoot = false
+						}
+					}
+					pos := m.Pos(cl.Pos())
+					isNode := root != nil && namedKey(root.Type()) == igNode
+					if got["ID"] == "ID" && got["Size"] == "Size" && len(got) == 2 && okRoot && isNode {
+						r.holds("out-node:ID", pos, "output node ID is the visited node's ID")
+						r.holds("out-node:Size", pos, "output node Size (X, Y, W, H) is the visited node's Size")
+					} else {
+						r.violation("out-node:fields", pos, "output node must be {ID: n.ID, Size: n.Size} of one node", fmt.Sprintf("got %v (single source node: %v)", got, okRoot && isNode))
+					}
+					if root != nil {
+						checkSkipCondition(m, r, info, fd, cl, root)
+					}
+				case pubEdge:
+					nEdge++
+					got := map[string]string{}
+					var root types.Object
+					okRoot := true
+					for _, el := range cl.Elts {
+						kv, ok := el.(*ast.KeyValueExpr)
+						if !ok {
+							got["<positional>"] = types.ExprString(el)
+							continue
+						}
+						k := kv.Key.(*ast.Ident).Name
+						v := kv.Value
+						wrap := ""
+						if call, ok := v.(*ast.CallExpr); ok && len(call.Args) == 1 {
+							wrap = funcFullName(calleeObj(info, call)) + ":"
+							v = call.Args[0]
+						}
+						ro, path := selPath(v)
+						got[k] = wrap + path
+						if root == nil {
+							root = ro
+						} else if root != ro {
+							okRoot = false
+						}
+					}
+					pos := m.Pos(cl.Pos())
+					want := map[string]string{"FromID": "From.ID", "ToID": "To.ID", "Points": "slices.Clone:Points", "ArrowHeadStart": "ArrowHeadStart"}
+					isEdge := root != nil && namedKey(root.Type()) == igEdge
+					for _, k := range []string{"FromID", "ToID", "Points", "ArrowHeadStart"} {
+						w := want[k]
+						if got[k] == w && okRoot && isEdge {
+							r.holds("out-edge:"+k, pos, "output edge "+k+" <- e."+strings.TrimPrefix(w, "slices.Clone:")+" of the visited edge")
+						} else {
+							r.violation("out-edge:"+k, pos, "output edge "+k+" must be taken from e."+w, fmt.Sprintf("got %q (single source edge: %v)", got[k], okRoot && isEdge))
+						}
+					}
+					if len(got) != len(want) {
+						r.violation("out-edge:extra", pos, "output edge literal has exactly the four mapped fields", fmt.Sprintf("got %v", got))
+					}
+					if root != nil {
+						checkUnconditionalAppend(m, r, info, fd, cl, root)
+					}
 				}
-				k := kv.Key.(*ast.Ident).Name
-				v := kv.Value
-				wrap := ""
-				if call, ok := v.(*ast.CallExpr); ok && len(call.Args) == 1 {
-					wrap = funcFullName(calleeObj(info, call)) + ":"
-					v = call.Args[0]
-				}
-				ro, path := selPath(v)
-				got[k] = wrap + path
-				if root == nil {
-					root = ro
-				} else if root != ro {
-					okRoot = false
-				}
-			}
-			pos := m.Pos(cl.Pos())
-			want := map[string]string{"FromID": "From.ID", "ToID": "To.ID", "Points": "slices.Clone:Points", "ArrowHeadStart": "ArrowHeadStart"}
-			isEdge := root != nil && namedKey(root.Type()) == igEdge
-			for k, w := range want {
-				if got[k] == w && okRoot && isEdge {
-					r.holds("out-edge:"+k, pos, "output edge "+k+" <- e."+strings.TrimPrefix(w, "slices.Clone:")+" of the visited edge")
-				} else {
-					r.violation("out-edge:"+k, pos, "output edge "+k+" must be taken from e."+w, fmt.Sprintf("got %q (single source edge: %v)", got[k], okRoot && isEdge))
-				}
-			}
-			if len(got) != len(want) {
-				r.violation("out-edge:extra", pos, "output edge literal has exactly the four mapped fields", fmt.Sprintf("got %v", got))
-			}
-			if root != nil {
-				checkUnconditionalAppend(m, r, info, fd, cl, root)
-			}
+				return true
+			})
 		}
-		return true
-	})
+	}
 	if nNode != 1 || nEdge != 1 {
-		r.undecided("out-literals", m.Pos(fd.Pos()), "Layout builds output nodes and edges with one composite literal each", fmt.Sprintf("found %d node and %d edge literals", nNode, nEdge))
+		r.undecided("out-literals", "-", "package autog builds output nodes and edges with one composite literal each", fmt.Sprintf("found %d node and %d edge literals", nNode, nEdge))
 	}
 }
 
@@ -618,12 +623,31 @@ func checkUnconditionalAppend(m *Model, r *RuleResult, info *types.Info, fd *ast
 			cond = true
 		}
 	}
-	// an append of the edge into out.Edges must exist at top level of the body
+	// the variable initialised from the literal
+	var litVar types.Object
+	for _, st := range rs.Body.List {
+		if as, ok := st.(*ast.AssignStmt); ok && len(as.Rhs) == 1 && as.Rhs[0] == ast.Expr(cl) {
+			if id, ok := as.Lhs[0].(*ast.Ident); ok {
+				litVar = info.Defs[id]
+				if litVar == nil {
+					litVar = info.Uses[id]
+				}
+			}
+		}
+	}
+	// an append of the edge must exist at top level of the body
 	appended := false
 	for _, st := range rs.Body.List {
 		if as, ok := st.(*ast.AssignStmt); ok && len(as.Rhs) == 1 {
-			if call, ok := as.Rhs[0].(*ast.CallExpr); ok && funcFullName(calleeObj(info, call)) == "builtin.append" && strings.HasSuffix(types.ExprString(as.Lhs[0]), ".Edges") {
-				appended = true
+			if call, ok := as.Rhs[0].(*ast.CallExpr); ok && funcFullName(calleeObj(info, call)) == "builtin.append" && sameExpr(as.Lhs[0], call.Args[0]) {
+				for _, a := range call.Args[1:] {
+					if id, ok := a.(*ast.Ident); ok && litVar != nil && info.Uses[id] == litVar {
+						appended = true
+					}
+					if a == ast.Expr(cl) {
+						appended = true
+					}
+				}
 			}
 		}
 	}
@@ -721,34 +745,62 @@ func runFlow1(m *Model, r *RuleResult) {
 		r.undecided("anchor:Layout", "-", "autog.Layout", "not found")
 		return
 	}
-	// shift := the value added to the output node's X
+	var pkgFns []*ssa.Function
+	for _, f := range m.Src {
+		if pkgPathOf(f) == pkgPathOf(layout) && !m.FuncIsPosctl(f) {
+			pkgFns = append(pkgFns, f)
+		}
+	}
+	// shift := the value added to the output node's X (possibly inside a helper of the package)
 	var shift ssa.Value
 	var xStore *ssa.Store
-	eachInstr(layout, func(in ssa.Instruction) {
-		st, ok := in.(*ssa.Store)
-		if !ok {
-			return
-		}
-		ai := classifyAddr(st.Addr)
-		if len(ai.Locs) == 0 || ai.Locs[0] != pubNode+".X" {
-			return
-		}
-		bo, ok := st.Val.(*ssa.BinOp)
-		if !ok || bo.Op != token.ADD {
-			return
-		}
-		if isLoadOf(bo.X, pubNode+".X") {
-			shift, xStore = bo.Y, st
-		} else if isLoadOf(bo.Y, pubNode+".X") {
-			shift, xStore = bo.X, st
-		}
-	})
+	for _, f := range pkgFns {
+		eachInstr(f, func(in ssa.Instruction) {
+			st, ok := in.(*ssa.Store)
+			if !ok {
+				return
+			}
+			ai := classifyAddr(st.Addr)
+			if len(ai.Locs) == 0 || ai.Locs[0] != pubNode+".X" {
+				return
+			}
+			bo, ok := st.Val.(*ssa.BinOp)
+			if !ok || bo.Op != token.ADD {
+				return
+			}
+			if isLoadOf(bo.X, pubNode+".X") {
+				shift, xStore = bo.Y, st
+			} else if isLoadOf(bo.Y, pubNode+".X") {
+				shift, xStore = bo.X, st
+			}
+		})
+	}
 	if shift == nil {
 		r.violation("shift:applied-to-node-x", m.Pos(layout.Pos()), "the component shift is added to the output node's X", "no `m.X += shift` found: components would be drawn on top of each other")
 		return
 	}
+	// resolve a helper's parameter to the caller's value
+	for depth := 0; depth < 3; depth++ {
+		par, ok := shift.(*ssa.Parameter)
+		if !ok {
+			break
+		}
+		idx := paramIndex(par.Parent(), par)
+		var up ssa.Value
+		for _, f := range pkgFns {
+			for _, s := range staticCalls(f, func(c *ssa.Function) bool { return c == par.Parent() }) {
+				if idx < len(s.Common().Args) {
+					up = s.Common().Args[idx]
+				}
+			}
+		}
+		if up == nil {
+			break
+		}
+		shift = up
+	}
 	r.holds("shift:applied-to-node-x", m.Pos(xStore.Pos()), "output node X = n.X + shift")
-	// forward slice
+	// forward slice (through helpers of the package)
 	var bad []string
 	pointsX, pointsOther := 0, 0
 	seen := map[ssa.Value]bool{}
@@ -796,6 +848,17 @@ func runFlow1(m *Model, r *RuleResult) {
 					}
 				default:
 					bad = append(bad, "shift stored into "+strings.Join(ai.Locs, ",")+" at "+m.Pos(x.Pos()))
+				}
+			case ssa.CallInstruction:
+				c := x.Common().StaticCallee()
+				if c != nil && pkgPathOf(c) == pkgPathOf(layout) && c.Blocks != nil {
+					for i, a := range x.Common().Args {
+						if a == v && i < len(c.Params) {
+							walk(c.Params[i], false)
+						}
+					}
+				} else {
+					bad = append(bad, "shift passed to "+calleeFullName(x.Common())+" at "+m.Pos(ref.Pos()))
 				}
 			default:
 				bad = append(bad, fmt.Sprintf("shift used by %T at %s", ref, m.Pos(ref.Pos())))
@@ -850,7 +913,7 @@ func runFlow1(m *Model, r *RuleResult) {
 			if rightmostReduction(rmost, map[ssa.Value]bool{}) {
 				okRec = true
 			} else {
-				why = "the rightmost extent is not a max-reduction of n.X + n.W over the last node of each layer"
+				why = "the rightmost extent is not an unconditional max-reduction of n.X + n.W over the last node of every non-empty layer (a layer is skipped under a further condition, or the extent is not last.X + last.W)"
 			}
 		}
 		z := false
@@ -871,6 +934,39 @@ func runFlow1(m *Model, r *RuleResult) {
 	}
 }
 
+// onlyEmptyLayerGuard: inside its loop, block b is control-dependent on nothing but the loop conditions and `len(x) == 0` tests.
+func onlyEmptyLayerGuard(b *ssa.BasicBlock) (bool, string) {
+	loops := naturalLoops(b.Parent())
+	for _, d := range transitiveControlDeps(b) {
+		// loop header tests are fine
+		isHeader := false
+		for _, l := range loops {
+			if l.Head == d.If.Block() {
+				isHeader = true
+			}
+		}
+		if isHeader {
+			continue
+		}
+		// only dependences inside the innermost loop containing b matter
+		ls := loopsContaining(loops, b)
+		if len(ls) == 0 || !ls[0].Body[d.If.Block()] {
+			continue
+		}
+		if bo, ok := d.If.Cond.(*ssa.BinOp); ok && (bo.Op == token.EQL || bo.Op == token.NEQ || bo.Op == token.GTR) {
+			if call, ok := bo.X.(*ssa.Call); ok {
+				if bi, ok := call.Call.Value.(*ssa.Builtin); ok && bi.Name() == "len" {
+					if c, isC := constInt(bo.Y); isC && c == 0 {
+						continue
+					}
+				}
+			}
+		}
+		return false, d.If.Cond.String()
+	}
+	return true, ""
+}
+
 func rightmostReduction(v ssa.Value, seen map[ssa.Value]bool) bool {
 	if seen[v] {
 		return false
@@ -884,6 +980,19 @@ func rightmostReduction(v ssa.Value, seen map[ssa.Value]bool) bool {
 			}
 		}
 	case *ssa.Call:
+		// a helper of the module returning the reduction
+		if c := x.Call.StaticCallee(); c != nil && c.Blocks != nil && inModule(c) {
+			n, ok := 0, true
+			eachInstr(c, func(in ssa.Instruction) {
+				if ret, isRet := in.(*ssa.Return); isRet && len(ret.Results) == 1 {
+					n++
+					if !rightmostReduction(ret.Results[0], seen) {
+						ok = false
+					}
+				}
+			})
+			return n > 0 && ok
+		}
 		if b, ok := x.Call.Value.(*ssa.Builtin); ok && b.Name() == "max" {
 			for _, a := range x.Call.Args {
 				bo, ok := a.(*ssa.BinOp)
@@ -910,7 +1019,9 @@ func rightmostReduction(v ssa.Value, seen map[ssa.Value]bool) bool {
 							if c, isC := constInt(ib.Y); isC && c == 1 {
 								if call, ok := ib.X.(*ssa.Call); ok {
 									if b2, ok := call.Call.Value.(*ssa.Builtin); ok && b2.Name() == "len" {
-										return true
+										if ok, _ := onlyEmptyLayerGuard(x.Block()); ok {
+											return true
+										}
 									}
 								}
 							}
@@ -1050,6 +1161,7 @@ func runBest1(m *Model, r *RuleResult) {
 		}
 		// logged value and restored map
 		logged, restored := false, false
+		var strayLog, strayRestore []string
 		eachInstr(f, func(in ssa.Instruction) {
 			switch x := in.(type) {
 			case ssa.CallInstruction:
@@ -1057,6 +1169,8 @@ func runBest1(m *Model, r *RuleResult) {
 					if k, ok := x.Common().Args[0].(*ssa.Const); ok && k.Value != nil && k.Value.String() == `"crossings"` {
 						if mi, ok := x.Common().Args[1].(*ssa.MakeInterface); ok && mi.X == ssa.Value(cphi) {
 							logged = true
+						} else {
+							strayLog = append(strayLog, m.Pos(in.Pos()))
 						}
 					}
 				}
@@ -1066,20 +1180,62 @@ func runBest1(m *Model, r *RuleResult) {
 					if locOfSteps(steps) == igNode+".LayerPos" {
 						if lk, ok := x.Val.(*ssa.Lookup); ok && lk.X == ssa.Value(pphi) {
 							restored = true
+						} else {
+							strayRestore = append(strayRestore, m.Pos(in.Pos()))
 						}
 					}
 				}
 			}
 		})
+		if len(strayLog) > 0 {
+			logged = false
+		}
+		if len(strayRestore) > 0 {
+			restored = false
+		}
+		// every run result is used only through the selection (no path adopts one run without comparing it with the other)
+		bypass := ""
+		for _, s := range sites {
+			v := s.Value()
+			if v == nil || v.Referrers() == nil {
+				continue
+			}
+			for _, ref := range *v.Referrers() {
+				ex, ok := ref.(*ssa.Extract)
+				if !ok {
+					bypass = "a run result is used as a whole at " + m.Pos(ref.Pos())
+					continue
+				}
+				inSel := false
+				for _, e := range cphi.Edges {
+					if e == ssa.Value(ex) {
+						inSel = true
+					}
+				}
+				for _, e := range pphi.Edges {
+					if e == ssa.Value(ex) {
+						inSel = true
+					}
+				}
+				if !inSel {
+					bypass = "the result of the run called at " + m.Pos(s.Pos()) + " does not take part in the selection"
+				}
+			}
+		}
+		if bypass == "" {
+			r.add(Obligation{Key: key + ":no-bypass", Pos: pos, Desc: "every seeded run takes part in the selection", Verdict: "holds", Control: ctl})
+		} else {
+			r.add(Obligation{Key: key + ":no-bypass", Pos: pos, Desc: "every seeded run must take part in the selection", Verdict: "violation", Detail: bypass + ": an order is adopted without being compared with the other seeded run", Control: ctl})
+		}
 		if logged {
 			r.add(Obligation{Key: key + ":logged", Pos: pos, Desc: "the count logged under \"crossings\" is the selected count", Verdict: "holds", Control: ctl})
 		} else {
-			r.add(Obligation{Key: key + ":logged", Pos: pos, Desc: "the count logged under \"crossings\" must be the selected count", Verdict: "violation", Detail: "Log(\"crossings\", ...) does not receive the selected count", Control: ctl})
+			r.add(Obligation{Key: key + ":logged", Pos: pos, Desc: "the count logged under \"crossings\" must be the selected count", Verdict: "violation", Detail: "a Log(\"crossings\", ...) does not receive the selected count " + strings.Join(strayLog, ","), Control: ctl})
 		}
 		if restored {
 			r.add(Obligation{Key: key + ":restored", Pos: pos, Desc: "Node.LayerPos is restored from the selected positions", Verdict: "holds", Control: ctl})
 		} else {
-			r.add(Obligation{Key: key + ":restored", Pos: pos, Desc: "Node.LayerPos must be restored from the selected positions", Verdict: "violation", Detail: "no `n.LayerPos = best[n]` over the selected map", Control: ctl})
+			r.add(Obligation{Key: key + ":restored", Pos: pos, Desc: "Node.LayerPos must be restored from the selected positions", Verdict: "violation", Detail: "Node.LayerPos is stored from something other than the selected map " + strings.Join(strayRestore, ","), Control: ctl})
 		}
 	}
 }
